@@ -8,24 +8,24 @@ HERE = os.path.dirname(os.path.abspath(__file__))
 SCHED_NOTE = ("Trusted base: the verifvs scheduler/instrumenter (instrumented sources must pass the repository's own tests at setup); "
               "virtual time assumes computation is instantaneous relative to timers; bounds as reported in the evidence file.")
 
-U = "every interleaving (unbounded preemptions; sleep-set partial-order reduction, sound for data-race-free code)"
+U = "every interleaving up to Mazurkiewicz equivalence (unbounded preemptions; dynamic partial-order reduction + sleep sets, sound for data-race-free code)"
 
 CHECKS = {
     "C02": {
         "script": "c02.py", "category": "model_checking",
-        "technique": "stateless model checking of the real broker code under a controlled scheduler (exhaustive DFS over schedules with sleep-set reduction, virtual time)",
+        "technique": "stateless model checking of the real broker code under a controlled scheduler (exhaustive DFS over schedules with DPOR + sleep sets, virtual time)",
         "text": U + " of the real IPC/HTTP/AMP handlers, Broker() and timers for <=2-3 proxies x <=2 clients x answer behaviours x entry points {IPC, POST, legacy POST, AMP GET} x fingerprints {none, default, second bridge, absent}; oracle on every execution: answers routed to the client whose offer the answering poll received, each offer in <=1 poll, relay URL of the named bridge, absent bridge never matched.",
         "design_ref": "§3 C02", "note": SCHED_NOTE,
     },
     "C03": {
         "script": "c03.py", "category": "model_checking",
-        "technique": "stateless model checking of the real broker code under a controlled scheduler (exhaustive DFS over schedules with sleep-set reduction, virtual time)",
+        "technique": "stateless model checking of the real broker code under a controlled scheduler (exhaustive DFS over schedules with DPOR + sleep sets, virtual time)",
         "text": U + " for all populations of <=3 waiting proxies (NAT x load x type) and <=2 concurrent clients (all NAT spellings incl. empty/absent); oracle: pool compatibility, refusal only when the eligible pool is exhausted, least-loaded proxy first, /debug counts equal the reference population and zero afterwards.",
         "design_ref": "§3 C03", "note": SCHED_NOTE,
     },
     "C04": {
         "script": "c04.py", "category": "model_checking",
-        "technique": "stateless model checking of the real broker code under a controlled scheduler (preemption-bounded DFS + happens-before state cache, virtual time)",
+        "technique": "stateless model checking of the real broker code under a controlled scheduler (exhaustive DFS over schedules with DPOR + sleep sets, virtual time)",
         "text": U + " of real IPC.ProxyPolls/ClientOffers/ProxyAnswers, Broker() and their timers for arrivals at {0,5s,=timeout,>timeout} and answers prompt/at-timeout/late/never/duplicate/unknown-id; every request thread must return within 10 s virtual time and the broker must be empty afterwards (map, heaps, gauge, /debug, fresh client).",
         "design_ref": "§3 C04", "note": SCHED_NOTE,
     },
@@ -39,6 +39,24 @@ CHECKS["C09"] = {
     "technique": "bounded-exhaustive enumeration of operation sequences x reader behaviours (deviation-bounded environment scripts) on the real codec against a reference decoder",
     "text": "All Data/Pad sequences of length <=3 over every prefix-size boundary x 5 extreme reader strategies x every reader script with <=2 deviations (short/zero-length/half reads, EOF attached); every truncation point; all byte strings <=4 over 12 boundary bytes; WritePadding(n) for all n<=70000; MaxDataForSize(n) for all n<=2^20+16; allocation bound.",
     "design_ref": "§3 C09", "note": ENUM_NOTE,
+}
+CHECKS["C11"] = {
+    "script": "c11.py", "category": "exploration", "engine": "enum",
+    "technique": "bounded-exhaustive enumeration on the real path/cache-URL/rendezvous code against independent references (AMP cache URL spec steps, base64url reader), recording RoundTripper and on-the-wire observation",
+    "text": "DecodePath over all data strings <=3 over 6 boundary bytes x all paddings <=3 tokens; EncodePath with pinned randomness; malformed paths; CacheURL over a host-label grammar (IDN, hyphens at 3-4, 63/64-byte labels) x schemes x ports x userinfo x paths x queries x cache URLs x content types against a reference of the AMP spec + published vectors; fronting (URL.Host = front, Host header = origin) at the RoundTripper and on the wire; status x body-size matrix around the 100 kB limit for HTTP and AMP.",
+    "design_ref": "§3 C11", "note": ENUM_NOTE + " The endpoint-equivalence clause (AMP endpoint == POST endpoint) is decided by the broker SCHED harness (c02 explores the amp entry point with the same oracle); x/net/idna is the trusted punycode primitive; slash normalisation by CacheURL is accepted (see DESIGN.md).",
+}
+CHECKS["C12"] = {
+    "script": "c12.py", "category": "exploration", "engine": "enum",
+    "technique": "bounded-exhaustive enumeration of field alphabets, JSON shape lattices, truncations, byte mutations and token strings on the real codecs against a reference written from the protocol comments",
+    "text": "All six messages: full products of field alphabets (round trip with documented defaults), JSON shape lattice per decoder, every truncation, every single-byte replacement/deletion/swap/insertion of valid documents, token strings <=5; flags panics, must-reject-but-accepted, round-trip/default mismatches.",
+    "design_ref": "§3 C12", "note": ENUM_NOTE,
+}
+CHECKS["C17"] = {
+    "script": "c17.py", "category": "model_checking",
+    "technique": "stateless model checking of the real turbotunnel adapters under a controlled scheduler (exhaustive DFS over schedules with DPOR + sleep sets, virtual time) with scripted carriers",
+    "text": U + " of RedialPacketConn with 1-3 scripted carriers x failure scripts {none, read, write, both, late write} x dial end {error, block} x close instants; oracle: no error before Close/dial failure, at most one carrier active, every carrier closed, no goroutine of the package alive after Close, user calls unblocked, packets unmodified and in order despite buffer scribbling.",
+    "design_ref": "§3 C17", "note": SCHED_NOTE,
 }
 CHECKS["C08"] = {
     "script": "c08.py", "category": "exploration", "engine": "enum",
